@@ -69,7 +69,7 @@ func init() {
 			nh, ncrc, nfiles, maxLen = 50, 65536, 200, 6000
 		}
 		return []CaseSet{genHeaders(r, nh, ncrc), genBursts(r, nfiles, maxLen, thorough)},
-			"headers: random field values x {matching CRC, " + strconv.Itoa(ncrc) + " stored CRCs, every single-byte corruption of every header byte, illegal sizes 0-255} through Header.CheckIntegrity, DecodeHeader and CheckIntegrity(headerOnly) (verdicts must agree); bursts: valid files (corpus + generated, both header sizes) x every start bit x window lengths 1-16 x patterns outside header bytes 0 and 4-7 through CheckIntegrity and Decode (must both reject)", false
+			"headers: random field values x {matching CRC, " + strconv.Itoa(ncrc) + " stored CRCs, every single-byte corruption of every header byte, illegal sizes 0-255} through Header.CheckIntegrity, DecodeHeader and CheckIntegrity(headerOnly) (verdicts must agree); bursts: valid files (corpus + generated, both header sizes) x every start bit x window lengths 1-16 x patterns outside header bytes 0 and 4-7, plus value-targeted overwrites of aligned byte pairs (zero, all ones, swapped, checksum of the prefix, complement, ...) at the header fields, header CRC, record start and file CRC, through CheckIntegrity and Decode (must both reject)", false
 	}
 	propPost["C04"] = postC04
 }
@@ -148,6 +148,30 @@ func genBursts(r *rng, nfiles, maxLen int, thorough bool) CaseSet {
 			}
 		}
 		return b, changed
+	}
+	// value-targeted bursts: overwrite an aligned byte pair with a value a lenient check might special-case
+	// (zero, all ones, byte-swapped, the checksum of the bytes before it, an increment)
+	for _, f := range files {
+		var pos []int
+		for _, p := range []int{1, 2, 8, 10, 12, len(f) - 2, len(f) - 3, len(f) - 4, int(f[0]), int(f[0]) - 2} {
+			if p >= 1 && p+2 <= len(f) && !(p+1 >= 4 && p <= 7) {
+				pos = append(pos, p)
+			}
+		}
+		for _, p := range pos {
+			pre := ownCRC(f[:p])
+			old := uint16(f[p]) | uint16(f[p+1])<<8
+			for _, v := range []uint16{0, 0xFFFF, old>>8 | old<<8, pre, ^old, old + 1, old ^ 0x8000, old & 0xFF, old & 0xFF00} {
+				if v == old {
+					continue
+				}
+				b := append([]byte{}, f...)
+				b[p], b[p+1] = byte(v), byte(v>>8)
+				for _, e := range []string{"integ", "decode"} {
+					cs.Cases = append(cs.Cases, decCase(e, "000", "-", "-", b))
+				}
+			}
+		}
 	}
 	for _, f := range files {
 		nbits := len(f) * 8
